@@ -39,6 +39,9 @@ type c16HookProgram struct {
 	Code                int    `json:"code"`
 	RetryAfter          string `json:"retryAfter"`
 	NetErr              bool   `json:"netErr"`
+	FailFirst           int    `json:"failFirst"` // the first n calls are answered with FailCode
+	FailCode            int    `json:"failCode"`
+	seen                int
 }
 
 func c16OptMap(m map[string]*string) c16J {
@@ -56,6 +59,12 @@ func c16OptMap(m map[string]*string) c16J {
 func (h *c16HookProgram) answer(url string, req c16J) (int, map[string]string, []byte, bool) {
 	if h.NetErr {
 		return 0, nil, nil, true
+	}
+	if h.FailFirst > 0 {
+		h.seen++
+		if h.seen <= h.FailFirst {
+			return h.FailCode, map[string]string{}, []byte(`{}`), false
+		}
 	}
 	code := h.Code
 	if code == 0 {
@@ -603,7 +612,7 @@ func TestVerif_C16(t *testing.T) {
 	// the same scenarios and records serve two properties: C16 (default) and the decorator leg of C06
 	prop, checkFn := "C16", "C16_check"
 	switch os.Getenv("VERIF_PROP") {
-	case "C06d", "C10d", "C17d":
+	case "C06d", "C10d", "C17d", "C03d", "C12d", "C13d":
 		prop = os.Getenv("VERIF_PROP")
 		checkFn = prop + "_check"
 	}
